@@ -156,3 +156,68 @@ pub fn trap_class(t: &Trap) -> String {
         }
     }
 }
+
+// ------------------------------------------------------------------------------------------------
+// syntax trees (emitted HLSL read back by the parser, or the MSL tree from the exporter hook)
+// ------------------------------------------------------------------------------------------------
+
+use super::cexec::{CExec, CTy, Dialect};
+
+/// Initial values of the static/groupshared globals of a module, by name (what an entry point wrapper would set up)
+pub fn initial_globals(m: &ir::Module) -> R<BTreeMap<String, Value>> {
+    let exec = Exec::new(m)?;
+    let mut out = BTreeMap::new();
+    for (gid, name) in static_global_names(m) {
+        if let Some(v) = exec.globals.get(&gid) {
+            out.insert(name, v.clone());
+        }
+    }
+    Ok(out)
+}
+
+/// Execute function `name` of a syntax tree. `args` are the source function's arguments; parameters beyond them are the
+/// globals the Metal exporter threads through as references: they are bound to storage initialised from `globals`.
+pub fn run_tree(tree: &rssl::ast::Module, dialect: Dialect, name: &str, args: &[Value], globals: &BTreeMap<String, Value>) -> R<Observed> {
+    let mut exec = CExec::new(tree, dialect)?;
+    let candidates: Vec<usize> = exec.free_functions().into_iter().filter(|(n, _)| n == name).map(|(_, i)| i).collect();
+    // with out/inout parameters Metal has two functions of that name: callers use the one without the tag parameter
+    let candidates: Vec<usize> = candidates.into_iter().filter(|f| !exec.param_info(*f).iter().any(|p| matches!(p.2, CTy::Tag))).collect();
+    let f = match candidates.as_slice() {
+        [f] => *f,
+        [] => return Err(Trap::Unsupported("function not found by name in the tree".into())),
+        _ => return Err(Trap::Unsupported("several functions of that name".into())),
+    };
+    let info = exec.param_info(f);
+    if info.len() < args.len() {
+        return Err(Trap::IllTyped(format!("emitted function {} takes {} parameters, the source function {}", name, info.len(), args.len())));
+    }
+    let mut all_args: Vec<Value> = args.to_vec();
+    let mut extra_names = Vec::new();
+    for (pname, is_ref, _) in &info[args.len()..] {
+        let Some(pname) = pname else { return Err(Trap::Unsupported("unnamed extra parameter".into())) };
+        if !is_ref {
+            return Err(Trap::IllTyped(format!("extra parameter {} of {} is not passed by reference", pname, name)));
+        }
+        let Some(v) = globals.get(pname) else { return Err(Trap::Unsupported(format!("extra parameter {} is not a known global", pname))) };
+        all_args.push(v.clone());
+        extra_names.push(pname.clone());
+    }
+    let r = exec.call_function(f, &all_args)?;
+    let mut outs = Vec::new();
+    let mut gl = BTreeMap::new();
+    for (i, v) in r.outs {
+        if i < args.len() {
+            outs.push((i, v));
+        } else {
+            gl.insert(extra_names[i - args.len()].clone(), v);
+        }
+    }
+    if dialect == Dialect::Hlsl {
+        for n in exec.global_names() {
+            if let Some(v) = exec.global_value(&n) {
+                gl.insert(n, v);
+            }
+        }
+    }
+    Ok(Observed { ret: r.ret, outs, globals: gl })
+}
